@@ -2403,3 +2403,338 @@ REQUIRED += ["matmul:1d-1d", "matmul:1d-2d", "matmul:2d-1d", "matmul:2d-2d", "ma
 REQUIRED += ["add:bool:or-masked", "add:bool:or", "add:alpha1", "add:alpha-mul", "sub:alpha-mul", "add_scalar:alpha-mul",
              "clamp:none", "clamp:lo", "clamp:hi", "clamp:lohi", "clamp_tensor:none", "clamp_tensor:lo", "clamp_tensor:hi",
              "clamp_tensor:lohi"]
+
+
+# ---- round 5: normalisation / sort / addmm family (OV.Model.C08Norm; its own trace table OV.Gen.C08TraceB) -------
+# These families are kept out of the first trace table (`extract_torchlib.TABLE_B`) so that its chunks stay as they are.
+
+TABLE_B = {"layer_norm", "native_layer_norm", "sort", "addmm", "baddbmm", "glu"}
+
+
+def _oshape(s):
+    return "N" if s is None else sh(s)
+
+
+def _layer_norm_fam(name, native):
+    class _LN:
+        fnname = "aten_" + name
+
+        @staticmethod
+        def gen(rng):
+            s = rshape(rng, 1, 4, zero_p=0.07)
+            u = rng.random()
+            k = len(s) if u < 0.25 else rng.randint(1, len(s))      # k = rank: axis = -rank (the boundary)
+            ns = list(s[len(s) - k:])
+            if rng.random() < 0.04 and 0 not in s:
+                s[rng.randrange(0, len(s))] = 0                       # empty batch or empty normalised block
+                ns = list(s[len(s) - k:])
+            w = list(ns) if rng.random() < 0.5 else None
+            b = list(ns) if rng.random() < 0.5 else None
+            v = rng.random()
+            if v < 0.02:
+                ns = []                                              # torch: at least 1-dimensional
+            elif v < 0.04:
+                ns = [2] + list(s)                                   # longer than the rank
+            elif v < 0.06:
+                ns = list(ns); ns[0] += 1                            # not the tail
+            elif v < 0.08 and w is not None:
+                w = [1]
+            elif v < 0.10 and b is not None:
+                b = b + [1]
+            return dict(shape=s, dtype="f32", ns=ns, w=w, b=b)
+
+        @staticmethod
+        def line(c):
+            return f"layer_norm {int(native)} {sh(c['shape'])} {sh(c['ns'])} {_oshape(c['w'])} {_oshape(c['b'])}"
+
+        @staticmethod
+        def _args(c):
+            x = _mm_small(c["shape"], 0)
+            w = None if c["w"] is None else np.asarray(_mm_small(c["w"], 1) + np.float32(0.5))
+            b = None if c["b"] is None else _mm_small(c["b"], 2)
+            return x, w, b
+
+        @staticmethod
+        def call(c):
+            x, w, b = _LN._args(c)
+            return [x, list(c["ns"]), w, b] + ([1e-05] if native else []), {}
+
+        @staticmethod
+        def torch(c, t):
+            x, w, b = _LN._args(c)
+            tw = None if w is None else t.tensor(w)
+            tb = None if b is None else t.tensor(b)
+            if native:
+                return t.native_layer_norm(t.tensor(x), list(c["ns"]), tw, tb, 1e-05)
+            return t.layer_norm(t.tensor(x), list(c["ns"]), tw, tb, 1e-05)
+
+        @staticmethod
+        def branch(c):
+            return ("weight" if c["w"] is not None else "default-weight") + (":bias" if c["b"] is not None else "")
+    return fam(name, "norm", ["aten::" + name], outkind="list" if native else "single")(_LN)
+
+
+_layer_norm_fam("layer_norm", False)
+_layer_norm_fam("native_layer_norm", True)
+
+
+def _sort_data(shape):
+    n = int(np.prod(shape)) if len(shape) else 1
+    return np.asarray(((np.arange(n) * 7919) % 1009).astype(np.float32).reshape(shape))   # distinct values
+
+
+@fam("sort", "reduction", ["aten::sort", "aten::sort.stable"], outkind="list")
+class _Sort:
+    @staticmethod
+    def gen(rng):
+        s = rshape(rng, 0, 3, zero_p=0.08)
+        u = rng.random()
+        d = (-len(s) if u < 0.2 else len(s) - 1 if u < 0.3 else rdim(rng, len(s), 0.05)) if s else rdim(rng, 0, 0.1)
+        # onnxruntime's TopK dies with SIGFPE (the whole process) when a dim *before* the axis is 0 and the axis is not
+        # ([0,3] dim 1, [2,0,3] dim 2): not torch_lib's doing and not survivable in-process, so such inputs are not generated;
+        # a 0 on the axis or after it is ([3,0] dim 0/1, [2,0,3] dim -3/1).
+        if s and -len(s) <= d < len(s):
+            a = d % len(s)
+            if s[a] != 0:
+                s = [1 if (i < a and v == 0) else v for i, v in enumerate(s)]
+        elif s:
+            s = [v or 1 for v in s]
+        return dict(shape=s, dtype="f32", dim=d, desc=rng.random() < 0.5, stable=rng.random() < 0.3)
+
+    @staticmethod
+    def line(c):
+        return f"sort {sh(c['shape'])} {c['dim']} {int(c['desc'])} ."
+
+    @staticmethod
+    def call(c):
+        return [_sort_data(c["shape"]), c["dim"], c["desc"], c["stable"]], {}
+
+    @staticmethod
+    def torch(c, t):
+        return t.sort(t.tensor(_sort_data(c["shape"])), dim=c["dim"], descending=c["desc"], stable=c["stable"])
+
+    @staticmethod
+    def branch(c):
+        return "rank0" if not c["shape"] else "topk" + (":descending" if c["desc"] else "")
+
+
+_AB = [1, 1, 1, 2, -1, 0, 3]
+
+
+def _self_shapes(rng, tgt):
+    """Shapes expandable to `tgt` (every rank from 0 to len(tgt), 1s in random places), rarely one that is not."""
+    k = rng.randint(0, len(tgt))
+    c = [d if rng.random() < 0.6 else 1 for d in tgt[len(tgt) - k:]]
+    v = rng.random()
+    if v < 0.04:
+        c = [1] + list(tgt)                                          # one dim too many
+    elif v < 0.08 and c:
+        c[-1] = c[-1] + 1 if c[-1] != 1 else 4
+    return c
+
+
+@fam("addmm", "linalg", ["aten::addmm"])
+class _Addmm:
+    @staticmethod
+    def gen(rng):
+        z = lambda: 0 if rng.random() < 0.04 else rng.choice([1, 2, 3])
+        m, k, n = z(), z(), z()
+        a, b = [m, k], [k if rng.random() > 0.04 else k + 1, n]
+        if rng.random() < 0.03:
+            a = [2] + a
+        return dict(shape=_self_shapes(rng, [m, n]), dtype="f32", a=a, b=b, alpha=rng.choice(_AB), beta=rng.choice(_AB))
+
+    @staticmethod
+    def line(c):
+        return f"addmm {sh(c['shape'])} {sh(c['a'])} {sh(c['b'])} {c['alpha']} {c['beta']}"
+
+    @staticmethod
+    def call(c):
+        return [_mm_small(c["shape"], 0), _mm_small(c["a"], 1), _mm_small(c["b"], 2)], {"beta": c["beta"], "alpha": c["alpha"]}
+
+    @staticmethod
+    def torch(c, t):
+        return t.addmm(t.tensor(_mm_small(c["shape"], 0)), t.tensor(_mm_small(c["a"], 1)), t.tensor(_mm_small(c["b"], 2)),
+                       beta=c["beta"], alpha=c["alpha"])
+
+    @staticmethod
+    def branch(c):
+        return f"self{len(c['shape'])}d"
+
+
+@fam("baddbmm", "linalg", ["aten::baddbmm"])
+class _Baddbmm:
+    @staticmethod
+    def gen(rng):
+        z = lambda: 0 if rng.random() < 0.03 else rng.choice([1, 2, 3])
+        bb, m, k, n = z(), z(), rng.choice([1, 2, 3]), z()
+        a, b = [bb, m, k], [bb, k if rng.random() > 0.04 else k + 1, n]
+        if rng.random() < 0.03:
+            b = b[1:]
+        o = lambda: None if rng.random() < 0.25 else rng.choice(_AB)
+        return dict(shape=_self_shapes(rng, [bb, m, n]), dtype="f32", a=a, b=b, alpha=o(), beta=o())
+
+    @staticmethod
+    def line(c):
+        return f"baddbmm {sh(c['shape'])} {sh(c['a'])} {sh(c['b'])} {opt(c['alpha'])} {opt(c['beta'])}"
+
+    @staticmethod
+    def call(c):
+        return [_mm_small(c["shape"], 0), _mm_small(c["a"], 1), _mm_small(c["b"], 2)], {"beta": c["beta"], "alpha": c["alpha"]}
+
+    @staticmethod
+    def torch(c, t):
+        kw = {k: c[k] for k in ("beta", "alpha") if c[k] is not None}
+        return t.baddbmm(t.tensor(_mm_small(c["shape"], 0)), t.tensor(_mm_small(c["a"], 1)), t.tensor(_mm_small(c["b"], 2)), **kw)
+
+    @staticmethod
+    def branch(c):
+        f = lambda v: "unit" if v is None or v == 1 else "mul"
+        return f"alpha-{f(c['alpha'])}:beta-{f(c['beta'])}"
+
+
+@fam("glu", "activation", ["aten::glu"])
+class _Glu:
+    @staticmethod
+    def gen(rng):
+        s = rshape(rng, 0, 3, zero_p=0.06)
+        if not s:
+            return dict(shape=s, dtype="f32", dim=rng.choice([0, -1]))
+        u = rng.random()
+        d = -len(s) if u < 0.2 else len(s) - 1 if u < 0.3 else rdim(rng, len(s), 0.05)
+        if -len(s) <= d < len(s) and rng.random() < 0.9:
+            s[d] = rng.choice([2, 2, 4, 6, 0] if rng.random() < 0.15 else [2, 2, 4, 6])
+        return dict(shape=s, dtype="f32", dim=d)
+
+    @staticmethod
+    def line(c):
+        return f"glu {sh(c['shape'])} {c['dim']}"
+
+    @staticmethod
+    def call(c):
+        return [np.asarray(_mm_small(c["shape"], 0) / np.float32(2))], {"dim": c["dim"]}
+
+    @staticmethod
+    def torch(c, t):
+        return t.nn.functional.glu(t.tensor(np.asarray(_mm_small(c["shape"], 0) / np.float32(2))), c["dim"])
+
+    @staticmethod
+    def branch(c):
+        return "rank0" if not c["shape"] else "split"
+
+
+def _ln_boundary(c):
+    k, r = len(c["ns"]), len(c["shape"])
+    if k == 0 or k > r or c["shape"][r - k:] != c["ns"]:
+        return "outside-domain"
+    if 0 in c["ns"]:
+        return "empty-block"
+    return ("axis=-rank" if k == r else "axis>-rank") + (":empty-batch" if 0 in c["shape"] else "")
+
+
+def _dim_boundary(c):
+    r = len(c["shape"])
+    if r == 0:
+        return "rank0"
+    d = c["dim"]
+    if not (-r <= d < r):
+        return "dim-out-of-range"
+    return ("dim=-rank" if d == -r else "dim=rank-1" if d == r - 1 else "dim-neg" if d < 0 else "dim-nonneg") + \
+        (":size0" if 0 in c["shape"] else "")
+
+
+for _n in ("layer_norm", "native_layer_norm"):
+    BRANCHES[_n] = [FAMILIES[_n]["branch"], _ln_boundary]
+for _n in ("sort", "glu"):
+    BRANCHES[_n] = [FAMILIES[_n]["branch"], _dim_boundary]
+BRANCHES["addmm"] = [FAMILIES["addmm"]["branch"], lambda c: "scaled" if (c["alpha"], c["beta"]) != (1, 1) else "unit",
+                     lambda c: "size0" if 0 in c["a"] + c["b"] else None]
+BRANCHES["baddbmm"] = [FAMILIES["baddbmm"]["branch"], lambda c: f"self{len(c['shape'])}d",
+                       lambda c: "size0" if 0 in c["a"] + c["b"] else None]
+REQUIRED += [f"{n}:{b}" for n in ("layer_norm", "native_layer_norm")
+             for b in ("weight", "weight:bias", "default-weight", "default-weight:bias", "axis=-rank", "axis>-rank", "outside-domain")]
+REQUIRED += ["sort:rank0", "sort:topk", "sort:topk:descending", "sort:dim=-rank", "sort:dim=rank-1", "sort:dim-out-of-range",
+             "glu:rank0", "glu:split", "glu:dim=-rank", "glu:dim=rank-1",
+             "addmm:self0d", "addmm:self1d", "addmm:self2d", "addmm:scaled", "addmm:unit",
+             "baddbmm:alpha-unit:beta-unit", "baddbmm:alpha-mul:beta-unit", "baddbmm:alpha-unit:beta-mul", "baddbmm:alpha-mul:beta-mul",
+             "baddbmm:self0d", "baddbmm:self1d", "baddbmm:self2d", "baddbmm:self3d"]
+
+
+# ---- round 5: boundary counters for every dim-taking family (tie item: "negative dims equal to -rank, size-0, rank-0") --------
+# One classifier per boundary class, attached to every family with an int `dim`, a `dims` list or a dim pair; the keys listed in
+# BOUNDARY_REQUIRED (a static table: what each generator is able to produce, measured) join REQUIRED, so every quick run
+# contains, for each of these functions, an input with dim = -rank, one with dim = rank-1, a rank-0 input and an input whose
+# size along the dim is 0 (directed generation draws until they are hit; INFRA if a generator stops producing them).
+
+def _bd_dim(label, pred):
+    def f(c):
+        if "shape" not in c or not isinstance(c.get("dim"), int) or isinstance(c.get("dim"), bool):
+            return None
+        r, d = len(c["shape"]), c["dim"]
+        return label if pred(r, d, c["shape"]) else None
+    return f
+
+
+def _bd_list(label, pred, keys):
+    def f(c):
+        if "shape" not in c:
+            return None
+        if keys == ("dims",):
+            if not isinstance(c.get("dims"), list):
+                return None
+            ds = c["dims"]
+        else:
+            if not all(isinstance(c.get(k), int) for k in keys):
+                return None
+            ds = [c[k] for k in keys]
+        return label if pred(len(c["shape"]), ds, c["shape"]) else None
+    return f
+
+
+_BD_DIM = [
+    _bd_dim("bd:dim=-rank", lambda r, d, s: r > 0 and d == -r),
+    _bd_dim("bd:dim=rank-1", lambda r, d, s: r > 0 and d == r - 1),
+    _bd_dim("bd:rank0", lambda r, d, s: r == 0),
+    _bd_dim("bd:size0@dim", lambda r, d, s: r > 0 and -r <= d < r and s[d] == 0),
+]
+
+
+def _bd_lists(keys):
+    return [
+        _bd_list("bd:dims∋-rank", lambda r, ds, s: r > 0 and -r in ds, keys),
+        _bd_list("bd:dims∋rank-1", lambda r, ds, s: r > 0 and (r - 1) in ds, keys),
+        _bd_list("bd:rank0", lambda r, ds, s: r == 0, keys),
+        _bd_list("bd:size0@dims", lambda r, ds, s: r > 0 and any(-r <= d < r and s[d] == 0 for d in ds), keys),
+    ]
+
+
+_D, _L, _R0, _Z = "bd:dim=-rank", "bd:dim=rank-1", "bd:rank0", "bd:size0@dim"
+BOUNDARY_REQUIRED = {
+    # int `dim`
+    "_log_softmax": [_D, _L, _R0], "_softmax": [_D, _L, _R0], "softmax": [_D, _L, _R0], "all_dim": [_D, _L, _R0, _Z],
+    "any_dim": [_D, _L, _R0, _Z], "argmax": [_D, _L, _R0, _Z], "argmin": [_D, _L, _R0, _Z], "chunk": [_D, _L, _Z],
+    "cumsum": [_D, _L, _R0, _Z], "gather": [_D, _L, _R0], "index_select": [_D, _L, _R0, _Z], "logcumsumexp": [_D, _L, _R0],
+    "max_dim": [_D, _L, _R0, _Z], "min_dim": [_D, _L, _R0, _Z], "narrow": [_D, _L, _Z], "prod_dim": [_D, _L, _R0, _Z],
+    "repeat_interleave": [_D, _L, _Z], "scatter_add": [_D, _L], "scatter_src": [_D, _L], "select": [_D, _L, _Z],
+    "select_scatter": [_D, _L], "slice": [_D, _L, _Z], "slice_scatter": [_D, _L], "split": [_D, _L, _Z],
+    "split_with_sizes": [_D, _L, _Z], "squeeze_dim": [_D, _L, _R0, _Z], "topk": [_D, _L], "unbind": [_D, _L, _Z],
+    "unflatten": [_D, _L, _Z], "unfold": [_D, _L, _R0], "unsqueeze": [_D, _L, _R0],
+    # `dims` lists / dim pairs
+    "all_dims": ["bd:dims∋-rank", "bd:dims∋rank-1", "bd:rank0", "bd:size0@dims"],
+    "any_dims": ["bd:dims∋-rank", "bd:dims∋rank-1", "bd:rank0", "bd:size0@dims"],
+    "amax": ["bd:dims∋-rank", "bd:dims∋rank-1", "bd:rank0", "bd:size0@dims"],
+    "amin": ["bd:dims∋-rank", "bd:dims∋rank-1", "bd:rank0", "bd:size0@dims"],
+    "flip": ["bd:dims∋-rank", "bd:dims∋rank-1", "bd:rank0", "bd:size0@dims"],
+    "logsumexp": ["bd:dims∋-rank", "bd:dims∋rank-1", "bd:rank0"],
+    "mean_dim": ["bd:dims∋-rank", "bd:dims∋rank-1", "bd:rank0", "bd:size0@dims"],
+    "permute": ["bd:dims∋-rank", "bd:dims∋rank-1", "bd:rank0", "bd:size0@dims"],
+    "roll": ["bd:dims∋-rank", "bd:dims∋rank-1", "bd:rank0", "bd:size0@dims"],
+    "sum_dim": ["bd:dims∋-rank", "bd:dims∋rank-1", "bd:rank0", "bd:size0@dims"],
+    "vector_norm": ["bd:dims∋-rank", "bd:dims∋rank-1", "bd:rank0"],
+    "flatten": ["bd:dims∋-rank", "bd:dims∋rank-1", "bd:rank0"], "transpose": ["bd:dims∋-rank", "bd:dims∋rank-1", "bd:rank0"],
+    "diagonal": ["bd:dims∋-rank", "bd:dims∋rank-1"],
+}
+for _n, _keys in BOUNDARY_REQUIRED.items():
+    _fs = _BD_DIM if _keys[0] == _D else _bd_lists(("a", "b") if _n in ("flatten", "transpose") else ("d1", "d2") if _n == "diagonal" else ("dims",))
+    BRANCHES[_n] = list(BRANCHES.get(_n, [])) + _fs
+    REQUIRED += [f"{_n}:{k}" for k in _keys]
